@@ -125,6 +125,18 @@ def _violations(rc, o, batches):
                      'impl': m['concurrent'], 'expected': m['sequential'],
                      'what': 'a call (%s) made concurrently with independent calls returned something else than the same call made '
                              'sequentially (replay re-runs the batch several times: the Go scheduler picks the interleaving)' % m['kind']})
+    # 1b. results that are wrong against the harness's own computation (digests by crypto/sha*, public key halves): own classes
+    for prefix, klass, what in (('WRONG-DIGEST', 'wrong-digest', 'a recorded digest is not the digest of the file (crypto/sha* computed by the harness)'),
+                                ('WRONG-KEY', 'wrong-key', 'a loaded key does not carry its own key id / public half / type')):
+        hit = [(b, m) for b in diff for m in b['mismatches'] if m['concurrent'].startswith(prefix)]
+        if hit:
+            b, m = hit[0]
+            inp = _params(b)
+            inp['call'] = {'goroutine': m['goroutine'], 'index': m['op'], 'kind': m['kind'], 'tree': m['tree']}
+            inp['n_wrong_calls'] = len(hit)
+            inp['tasks'] = b.get('tasks')
+            viol.append({'klass': klass, 'case': {'id': b['id'], 'input': inp}, 'impl': m['concurrent'], 'expected': m['sequential'],
+                         'what': what + ' when independent calls run concurrently (replay re-runs the batch several times)'})
     # 2. race reports, attributed to the batch that was running
     pos = 0
     cur = None
@@ -162,7 +174,7 @@ def _violations(rc, o, batches):
             inp.update({'phase': h['phase'], 'deadline_s': h['deadline_s'], 'goroutines_blocked_in_in_toto': h['goroutines_blocked_in_in_toto'],
                         'blocked_stacks': h['blocked_stacks'], 'trees': b.get('trees'), 'tasks': b.get('tasks')})
             frames = []
-            for fr in re.findall(r'in_toto\.([A-Za-z0-9_.()*]+)\(', '\n'.join(h['blocked_stacks'])):
+            for fr in re.findall(r'in_toto\.([A-Za-z0-9_.()*]+)\(', '\n'.join(h['blocked_stacks'] or [])):
                 fr = re.sub(r'\.func\d+(\.\d+)*$', '', fr)
                 if fr not in frames:
                     frames.append(fr)
